@@ -289,7 +289,7 @@ pub fn check_c10() -> PropertyCheck {
   PropertyCheck {
     id: "C10",
     scenarios: vec![Box::new(C10Pipes), Box::new(C10Share), Box::new(crate::props::c06::C06Threads)],
-    runs: (60_000, 8_000_000),
+    runs: (200_000, 8_000_000),
     rule: "pipelines: random _threads operator tree (depth <=2, 1-2 hot inputs, incl. merge/zip/combine_latest/take_until/merge_all/share/observe_on/delay _threads) driven by 2-3 simulated threads (next/complete/error, optionally one unsubscribing thread) plus 0-2 pool workers, every interleaving decision at MutArc lock points and inside probe callbacks drawn from the PRNG (random walk, PCT d<=3, mostly-sequential); subject part: the C06 thread scenario; non-trivial = >=1 decision with >1 eligible thread; distinct = distinct (case, schedule, behaviour) hashes",
     assumptions: vec!["no callback re-enters its own pipeline (the property's stated precondition)", "interleavings at lock granularity, sequentially consistent"],
   }
